@@ -138,6 +138,37 @@ func globalWriters(g *ssa.Global) []string {
 	return out
 }
 
+// boundArgs: the terms of the variadic arguments that follow the statement in the call that receives it.
+func boundArgs(fn *ssa.Function, stmt string, sx *core.Symx) []string {
+	var out []string
+	core.Instrs(fn, func(i ssa.Instruction) {
+		cc := core.AsCall(i)
+		if cc == nil {
+			return
+		}
+		for k, a := range cc.Args {
+			if stmtText(a, 0) != stmt || k+1 >= len(cc.Args) {
+				continue
+			}
+			t := sx.Of(cc.Args[k+1])
+			out = []string{}
+			if t.Op == "const" { // nil variadic
+				return
+			}
+			t.Walk(func(x *core.Term) {
+				if x.Op == "lit" && len(out) == 0 {
+					for j := 0; j < len(x.Fields); j++ {
+						if f := x.Fields[fmt.Sprintf("[const(%d)]", j)]; f != nil {
+							out = append(out, f.String())
+						}
+					}
+				}
+			})
+		}
+	})
+	return out
+}
+
 // orderedStatements: the folded texts of every ORDER BY statement that fn hands to a call.
 func orderedStatements(fn *ssa.Function) []string {
 	var out []string
@@ -162,6 +193,7 @@ type orderedSpec struct {
 	pkg, recv, fn, table, dir string
 	where                     []string
 	keys                      [][]string // accepted ORDER BY key lists (all equivalent chain orders)
+	args                      []string   // terms bound to $1, $2, …
 }
 
 // checkOrdered: fn issues exactly one `SELECT … FROM table [WHERE conj] ORDER BY keys dir LIMIT 1` statement.
@@ -198,7 +230,9 @@ func checkOrdered(c *core.Ctx, rule string, specs []orderedSpec) {
 				ok = ok && d == w.dir
 			}
 		}
-		c.Decide(ok, rule, label, fn.Pos(), fmt.Sprintf("%s row among %v by %v: %+v", map[string]string{"DESC": "last", "ASC": "first"}[w.dir], w.where, w.keys[0], *q))
+		got := boundArgs(fn, stmts[0], core.NewSymx())
+		ok = ok && fmt.Sprint(got) == fmt.Sprint(w.args)
+		c.Decide(ok, rule, label, fn.Pos(), fmt.Sprintf("%s row among %v by %v: %+v bound to %v", map[string]string{"DESC": "last", "ASC": "first"}[w.dir], w.where, w.keys[0], *q, got))
 	}
 }
 
